@@ -124,10 +124,10 @@ type c18Op struct {
 	key    int
 	val    int
 	prefix int
-	cb     int // 0 collect, 1 stop@1, 2 stop@2, 3 err@1, 4 err@2
+	cb     int // 0 collect, 1 stop@1, 2 stop@2, 3 err@1, 4 err@2, 5 stop+err@1, 6 stop+err@2
 }
 
-var c18CbNames = []string{"collect", "stop@1", "stop@2", "err@1", "err@2"}
+var c18CbNames = []string{"collect", "stop@1", "stop@2", "err@1", "err@2", "stop+err@1", "stop+err@2"}
 
 // c18Alphabet builds the operation alphabet for a size class:
 //
@@ -140,7 +140,7 @@ func c18Alphabet(withReopen bool, size int) []c18Op {
 	keys := []int{0, 1, 2, 3, 4}
 	vals := []int{0, 1, 2, 3, 4}
 	prefixes := []int{0, 1, 2, 3, 4}
-	cbs := []int{0, 1, 2, 3, 4}
+	cbs := []int{0, 1, 2, 3, 4, 5, 6}
 	gets := true
 	switch size {
 	case 1:
@@ -149,7 +149,7 @@ func c18Alphabet(withReopen bool, size int) []c18Op {
 		keys = []int{0, 1, 4}  // a, ab, b
 		vals = []int{0, 4}     // int7, binEmpty
 		prefixes = []int{0, 1} // "", a
-		cbs = []int{0, 1, 3}   // collect, stop@1, err@1
+		cbs = []int{0, 1, 3, 5} // collect, stop@1, err@1, stop+err@1
 	case 3:
 		keys = []int{0, 1} // a, ab
 		vals = []int{0, 4}
@@ -224,6 +224,12 @@ func c18Iterate(s storage.StateStorer, prefix string, cb int) (visits []c18Visit
 			if n == cb-2 {
 				cbErrReturned = true
 				return false, errC18Callback
+			}
+		case 5, 6:
+			// asks to stop AND reports an error in the same call
+			if n == cb-4 {
+				cbErrReturned = true
+				return true, errC18Callback
 			}
 		}
 		return false, nil
@@ -409,6 +415,11 @@ func c18Run(t *testing.T, harness string, impls []int, size int, depth int) {
 						want = match[:cb-2]
 						wantErr = true
 					}
+				case 5, 6:
+					if len(match) >= cb-4 {
+						want = match[:cb-4]
+						wantErr = true
+					}
 				}
 				visits, cbErr, ret := c18Iterate(s, prefix, cb)
 				got := make([]string, 0, len(visits))
@@ -422,10 +433,10 @@ func c18Run(t *testing.T, harness string, impls []int, size int, depth int) {
 					}
 				}
 				if len(got) > len(want) {
-					if cb == 1 || cb == 2 {
+					if cb == 1 || cb == 2 || cb == 5 || cb == 6 {
 						return "iterate-ignores-stop", fmt.Sprintf("Iterate(%q,%s) made %d visits, the callback asked to stop after %d", prefix, c18CbNames[cb], len(got), len(want))
 					}
-					if cb >= 3 && wantErr {
+					if (cb == 3 || cb == 4) && wantErr {
 						// visiting on after a callback error is not excluded by the statement
 						got = got[:len(want)]
 					} else {
@@ -448,7 +459,7 @@ func c18Run(t *testing.T, harness string, impls []int, size int, depth int) {
 				}
 				if wantErr {
 					if ret == nil {
-						return "iterate-callback-error-lost", fmt.Sprintf("Iterate(%q,%s): the callback returned an error at visit %d but Iterate returned nil", prefix, c18CbNames[cb], cb-2)
+						return "iterate-callback-error-lost", fmt.Sprintf("Iterate(%q,%s): the callback returned an error but Iterate returned nil", prefix, c18CbNames[cb])
 					}
 					if !errors.Is(ret, errC18Callback) {
 						return "iterate-callback-error-replaced", fmt.Sprintf("Iterate(%q,%s): the callback's error was replaced by %v", prefix, c18CbNames[cb], ret)
@@ -544,7 +555,7 @@ func c18Run(t *testing.T, harness string, impls []int, size int, depth int) {
 					if (op.cb == 1 || op.cb == 2) && len(match) > op.cb {
 						x.Tag("iterate-stop-truncates")
 					}
-					if op.cb >= 3 && len(match) >= op.cb-2 {
+					if (op.cb == 3 || op.cb == 4) && len(match) >= op.cb-2 || op.cb >= 5 && len(match) >= op.cb-4 {
 						x.Tag("iterate-callback-error-raised")
 						x.Nontrivial()
 					}
